@@ -17,7 +17,7 @@ byte level, and the struct codec (A2) connects bytes to fields.
 """
 import z3
 
-from pyvc.sym import BOOL, BV8, BYTES, INT, REAL, ORD, DeadPath, Obj, Opt, Path, Raw, Ref, Unsupported, fresh, is_z3, to_z3
+from pyvc.sym import bcat, blen, BOOL, BV8, BYTES, INT, REAL, ORD, DeadPath, Obj, Opt, Path, Raw, Ref, Unsupported, fresh, is_z3, to_z3
 
 NODE_FMT = "75pBI6Q"
 LINK_FMT = "QQ"
@@ -34,8 +34,35 @@ AL = z3.Function("AL", INT, BOOL)  # 128-aligned
 AL16 = z3.Function("AL16", INT, BOOL)  # 16-aligned
 
 
+# number of 74-byte tail blocks a tail of x bytes needs: ceil(x/74), through on-demand
+# linear facts instead of integer division
+TB = z3.Function("TB", INT, INT)
+
+
+def _tb_axioms(terms):
+    out = []
+    for t in terms:
+        if z3.is_app(t) and t.decl().name() == "TB":
+            x = t.arg(0)
+            out.append(z3.Implies(x <= 0, t == 0))
+            out.append(z3.Implies(x > 0, z3.And(74 * (t - 1) < x, x <= 74 * t)))
+    return out
+
+
+def _install_tb():
+    from pyvc import smt
+
+    if _tb_axioms not in smt.TERM_AXIOMS:
+        smt.TERM_AXIOMS.append(_tb_axioms)
+    smt.GLOBAL_SYMBOLS.add("TB")
+    smt.TERM_FUNCS.add("TB")
+
+
 def bit(flags, k):
     return z3.Extract(k, k, flags) == 1
+
+
+_install_tb()
 
 
 def al_axioms():
@@ -77,7 +104,7 @@ class W(object):
         return z3.Select(self.p.w["G.rest"], a)
 
     def key(self, a):
-        return z3.Concat(self.f("stem", a), self.rest(a))
+        return bcat(self.f("stem", a), self.rest(a))
 
     def blk(self, a):
         return z3.And(AL(a), a >= 128, a < self.p.w["T.size"])
@@ -115,6 +142,16 @@ def mk_world(p, trie=True, links=False, ghost=True, tag=""):
         p.assume(AL16(p.w["L.size"]))
         p.assume(p.w["L.size"] >= 0)
     return W(p)
+
+
+def assume_A1(p):
+    """assumption A1: machine integers are treated as unbounded up to the struct
+    limits -- store sizes (hence every block address) stay far below 2**64"""
+    for k in ("T.size", "L.size"):
+        if k in p.w:
+            f = p.w[k] < 2 ** 62
+            if not any(c.eq(f) for c in p.pc):
+                p.assume(f)
 
 
 def snapshot(p):
@@ -183,6 +220,7 @@ def store_write(ex, p, recv, args, kw, ln):
     al = AL if world == "T" else AL16
     raw = args[0]
     b = args[1] if len(args) > 1 else kw.get("block")
+    assume_A1(p)
     if not isinstance(raw, Raw):
         raise Unsupported("storage.write of a non-block value")
     out = []
@@ -278,7 +316,7 @@ def node_block(p, ref):
 
 def in_range(data):
     """struct field ranges of a node's RAM copy (what unpack always yields)"""
-    cs = [z3.Length(data[0]) <= 74]
+    cs = [blen(data[0]) <= 74]
     for i, w in ((2, 32), (3, 64), (4, 64), (5, 64), (6, 64), (7, 64), (8, 64)):
         cs.append(z3.And(data[i] >= 0, data[i] < 2 ** w))
     return cs
@@ -287,7 +325,7 @@ def in_range(data):
 def fields_in_range(w):
     """what the codec guarantees of every stored block (A2)"""
     a = z3.Int("a")
-    cs = [z3.ForAll([a], z3.Length(w.f("stem", a)) <= 74)]
+    cs = [z3.ForAll([a], blen(w.f("stem", a)) <= 74)]
     for f, wd in (("we", 32), ("left", 64), ("right", 64), ("child", 64), ("parent", 64), ("outl", 64), ("inl", 64)):
         cs.append(z3.ForAll([a], z3.And(w.f(f, a) >= 0, w.f(f, a) < 2 ** wd)))
     return cs
